@@ -125,8 +125,8 @@ def c18():
         if r.ok != expect_ok:
             raise RuntimeError("LibecConc sanity: %s expected ok=%s" % (nm, expect_ok))
     # monitor: ThreadSanitizer on free-running stress (no scheduler: its synchronisation would hide races)
-    runs = [(4, 2, 150, 0), (4, 0, 200, 1), (2, 2, 300, 3), (8, 0, 60, 1)] if not thorough else \
-           [(n, s, 400, md) for n in (2, 4, 8, 14) for s in (0, 2) for md in (0, 1, 3)]
+    runs = [(4, 2, 150, 0), (4, 0, 200, 1), (2, 2, 300, 3), (8, 0, 60, 1), (4, 4, 120, 4)] if not thorough else \
+           [(n, s, 400, md) for n in (2, 4, 8, 14) for s in (0, 2) for md in (0, 1, 3, 4)]
     total_ops = 0
     nstress = 0
     for i, (n, s, it, md) in enumerate(runs):
